@@ -58,6 +58,7 @@ CONSTANTS
   MaxItems,   \* replies a streaming handler sends
   Window,     \* flow-control window: requests in flight per stream
   Foreign,    \* whether other nodes of a streaming call's configuration fill its reply channel
+  Abandons,   \* whether a call may end (quorum from other nodes) while its request to this node is pending
   Devs
 
 VARIABLES
@@ -241,6 +242,15 @@ DrainItem(r) ==
                  broken, wake, established, lkW, lkR, lkWait, epoch, alive, routers, rmBlocked, c2s, s2c, up, crashes, mutHeld,
                  handlers, items, closed, enqOrder, started>>
 
+\* The call has its quorum from other nodes of its configuration: it returns and never
+\* looks at this node's reply (the router stays until the reply arrives or the stream breaks).
+Abandon(r) ==
+  /\ Abandons /\ Kind[r] = "two" /\ cpc[r] = "wait"
+  /\ cpc' = [cpc EXCEPT ![r] = "done"]
+  /\ UNCHANGED <<ctx, resp, taken, sendQ, spc, cur, sndErr, sretries, sndEpoch, raced, rpc, rcvEpoch, rmsg, rcvLast, rcvFailed, watcher,
+                 broken, wake, established, lkW, lkR, lkWait, epoch, alive, routers, rmBlocked, c2s, s2c, up, crashes, mutHeld,
+                 handlers, items, closed, enqOrder, started>>
+
 \* a finished streaming call removes its router (deferred deleteRouter).
 \* Deviation StreamRouteBlocksUnderRM: it needs the router mutex, which a
 \* receiver blocked in a delivery to this very call holds.  Repaired design:
@@ -289,7 +299,9 @@ SenderExit ==
 Drain ==
   /\ closed /\ sendQ # <<>> /\ "BufferedSendQStrands" \notin Devs /\ RMFree
   /\ spc \in {"idle", "exited"}
-  /\ Delivered(Head(sendQ), "err") /\ sendQ' = Tail(sendQ)
+  /\ \E i \in DOMAIN sendQ :            \* (several goroutines may drain at once: any order)
+       /\ Delivered(sendQ[i], "err")
+       /\ sendQ' = SubSeq(sendQ, 1, i - 1) \o SubSeq(sendQ, i + 1, Len(sendQ))
   /\ SUnch /\ UNCHANGED <<spc, cur, sndErr, sretries, sndEpoch, raced, watcher, broken, wake, established, lkW, lkR, lkWait, epoch,
                           alive, rmBlocked>>
 
@@ -411,10 +423,27 @@ SRLock ==
   /\ SUnch /\ UNCHANGED <<sendQ, resp, cur, sndErr, sretries, broken, wake, established, lkW, lkWait, epoch, alive, routers,
                           rmBlocked>>
 
+\* A write on a stream that is gone may still report success: the peer died and the
+\* local transport has not noticed, or the stream was cancelled (by a watcher, by
+\* Close) and the cancellation has not been processed yet - which is certain only once
+\* the receiver has seen this stream fail.
+\* ASSUMPTION (relative speed, not causality): by the time a receiver that found the node
+\* closed at the end of its loop has failed the pending requests and returned, the
+\* transport has processed the cancellation, so a write started later fails.  Without it
+\* TLC exhibits (29 states) a request that is handed to the sender after Close, written
+\* "successfully" to the cancelled stream after the receiver has gone, and never answered;
+\* this needs a write within the few microseconds gRPC takes to act on the cancelled
+\* context and was not reproduced on the real code (DESIGN.md 7).
+CancelUnprocessed ==
+  /\ alive[sndEpoch] = "cancelled"
+  /\ raced \/ (~(rcvFailed /\ rcvLast = sndEpoch) /\ rpc \notin {"exiting", "exited"})
+LossySuccess == alive[sndEpoch] = "dead" \/ CancelUnprocessed
+
 \* SendMsg is not atomic: the message is on its way - and may be read by the
 \* server - before the call returns (SendWrite, then SendDone)
 SendWrite ==
-  /\ spc = "sending" /\ alive[sndEpoch] = "open" /\ Len(c2s[sndEpoch]) < Window
+  /\ spc = "sending" /\ (alive[sndEpoch] = "open" \/ CancelUnprocessed)      \* (such a write may even arrive)
+  /\ Len(c2s[sndEpoch]) < Window
   /\ c2s' = [c2s EXCEPT ![sndEpoch] = Append(@, cur)]
   /\ spc' = "written"
   /\ UNCHANGED <<cpc, ctx, taken, rpc, rcvEpoch, rmsg, rcvLast, rcvFailed, s2c, up, crashes, mutHeld, handlers, items, closed, enqOrder,
@@ -430,10 +459,9 @@ SendDone ==
      \/ \* the write raced with the cancellation of the stream, or the peer is gone and the
         \* local transport has not noticed yet: SendMsg reports success but the message
         \* never arrives
-        /\ spc = "sending"
-        /\ (alive[sndEpoch] = "cancelled" /\ raced) \/ alive[sndEpoch] = "dead"
+        /\ spc = "sending" /\ LossySuccess
         /\ UNCHANGED <<broken, wake, sndErr>>
-  /\ watcher' = [watcher EXCEPT ![cur] = "off"]
+  /\ watcher' = [watcher EXCEPT ![cur] = IF @ = "firing" THEN "firing" ELSE "off"]    \* close(done)
   /\ lkR' = lkR \ {"snd"}
   /\ spc' = "confirm"
   /\ UNCHANGED <<cpc, ctx, taken, rpc, rcvEpoch, rmsg, rcvLast, rcvFailed, c2s, s2c, up, crashes, mutHeld, handlers, items, closed, enqOrder,
@@ -456,13 +484,23 @@ Confirm ==
   /\ SUnch /\ UNCHANGED <<sendQ, sndErr, sretries, sndEpoch, raced, watcher, broken, wake, established, lkW, lkR, lkWait, epoch,
                           alive, rmBlocked>>
 
-\* the cancellation watcher of the request being written: the context ended
-\* before the write finished: cancel the CURRENT stream as a precaution
-WatcherFires(r) ==
+\* The cancellation watcher of the request being written.  It wakes when the context
+\* ends, finds the write unfinished (WatcherDecides) and then - not atomically - cancels
+\* whatever stream is CURRENT at that moment, as a precaution (WatcherFires): the write
+\* may have returned, and the stream may even have been re-created, in between.
+WatcherDecides(r) ==
   /\ watcher[r] = "armed" /\ ctx[r] = "ended"
+  /\ watcher' = [watcher EXCEPT ![r] = "firing"]
+  /\ UNCHANGED <<cpc, ctx, resp, taken, sendQ, spc, cur, sndErr, sretries, sndEpoch, raced, rpc, rcvEpoch, rmsg, rcvLast, rcvFailed,
+                 broken, wake, established, lkW, lkR, lkWait, epoch, alive, routers, rmBlocked, c2s, s2c, up, crashes, mutHeld,
+                 handlers, items, closed, enqOrder, started>>
+
+WatcherFires(r) ==
+  /\ watcher[r] = "firing"
   /\ watcher' = [watcher EXCEPT ![r] = "off"]
   /\ alive' = IF epoch > 0 /\ alive[epoch] \in {"open", "dead"} THEN [alive EXCEPT ![epoch] = "cancelled"] ELSE alive
-  /\ raced' = (raced \/ (spc \in {"sending", "written"} /\ sndEpoch = epoch))
+  /\ raced' = (raced \/ (spc \in {"sending", "written"} /\ sndEpoch = epoch /\ alive[epoch] \in {"open", "dead"}))
+                                                       \* (cancelling a cancelled stream again races with nothing)
   /\ UNCHANGED <<cpc, ctx, resp, taken, sendQ, spc, cur, sndErr, sretries, sndEpoch, rpc, rcvEpoch, rmsg, rcvLast, rcvFailed, broken, wake,
                  established, lkW, lkR, lkWait, epoch, routers, rmBlocked, c2s, s2c, up, crashes, mutHeld, handlers,
                  items, closed, enqOrder, started>>
@@ -516,7 +554,7 @@ Route ==
   /\ rpc = "route" /\ ~CallerHoldsRM /\ ~(rmBlocked /\ rmsg \in routers /\ ~CanDeliver(rmsg))
   /\ IF CanDeliver(rmsg)
        THEN /\ Delivered(rmsg, "ok") /\ rmBlocked' = FALSE
-            /\ rpc' = IF closed THEN "exiting" ELSE "rlockwait"
+            /\ rpc' = "loopend"
        ELSE /\ rmBlocked' = TRUE /\ UNCHANGED <<resp, routers, rpc>>
   /\ RUnch /\ UNCHANGED <<rcvLast, rcvFailed, rcvEpoch, rmsg, broken, wake, lkW, lkR, lkWait, epoch, alive, s2c>>
 
@@ -548,7 +586,7 @@ RLockWait ==
        ELSE lkWait' = lkWait \cup {"rcv"} /\ "rcv" \notin lkWait /\ UNCHANGED <<lkW, rpc>>
   /\ RUnch /\ UNCHANGED <<rcvLast, rcvFailed, resp, rcvEpoch, rmsg, broken, wake, lkR, epoch, alive, routers, rmBlocked, s2c>>
 
-AfterReconnect == IF closed THEN "exiting" ELSE "rlockwait"
+AfterReconnect == "loopend"
 
 RLocked ==
   /\ rpc = "r_locked" /\ lkW = "rcv" /\ WithinBound
@@ -569,15 +607,16 @@ TimerFire ==
 \* somebody else has re-created the stream (wake-up channel)
 SleepInterrupted ==
   /\ rpc = "r_sleep"
-  /\ \/ closed /\ rpc' = "exiting" /\ UNCHANGED wake
+  /\ \/ closed /\ rpc' = "loopend" /\ UNCHANGED wake
      \/ wake /\ rpc' = "r_lockwait" /\ wake' = FALSE   \* the token is consumed (also possible on a closed node:
                                                       \* the select picks any ready case)
   /\ RUnch /\ UNCHANGED <<rcvLast, rcvFailed, resp, rcvEpoch, rmsg, broken, lkW, lkR, lkWait, epoch, alive, routers, rmBlocked, s2c>>
 
-\* a receiver between two steps notices the closed node
-RcvNoticeClosed ==
-  /\ rpc = "rlockwait" /\ closed
-  /\ rpc' = "exiting"
+\* the end of the receiver's loop body (after a routed response, after reconnect): the
+\* only place where the receiver looks whether the node has been closed
+RcvLoopEnd ==
+  /\ rpc = "loopend"
+  /\ rpc' = IF closed THEN "exiting" ELSE "rlockwait"
   /\ RUnch /\ UNCHANGED <<rcvLast, rcvFailed, resp, rcvEpoch, rmsg, broken, wake, lkW, lkR, lkWait, epoch, alive, routers, rmBlocked, s2c>>
 
 \* The receiver returns.  Deviation RcvExitSkipsCancelPending: requests that are
@@ -603,7 +642,7 @@ VUnch == UNCHANGED <<cpc, ctx, resp, taken, sendQ, spc, cur, sndErr, sretries, s
 \* the loop takes the next request of connection e and starts its handler;
 \* it can do so only when the previous handler has released the mutex
 SrvStart(e) ==
-  /\ up /\ alive[e] = "open" /\ c2s[e] # <<>> /\ mutHeld[e] = 0
+  /\ up /\ alive[e] \in {"open", "cancelled"} /\ c2s[e] # <<>> /\ mutHeld[e] = 0    \* (the server learns of a cancellation later)
   /\ LET r == Head(c2s[e]) IN
        /\ c2s' = [c2s EXCEPT ![e] = Tail(@)]
        /\ mutHeld' = [mutHeld EXCEPT ![e] = r]
@@ -646,8 +685,11 @@ EUnch == UNCHANGED <<cpc, resp, taken, sendQ, spc, cur, sndErr, sretries, sndEpo
 EUnchNoRaced == UNCHANGED <<cpc, resp, taken, sendQ, spc, cur, sndErr, sretries, sndEpoch, rpc, rcvEpoch, rmsg, rcvLast, rcvFailed, watcher,
                      broken, wake, established, lkW, lkR, lkWait, epoch, routers, rmBlocked, enqOrder, started>>
 
+\* (a context matters as long as the call waits or the transport still holds the request:
+\* a no-send-waiting call has returned while its request is still queued or being written)
+InTransit(r) == cur = r \/ \E i \in DOMAIN sendQ : sendQ[i] = r
 CtxEnd(r) ==
-  /\ r \in CanCancel /\ ctx[r] = "live" /\ cpc[r] # "done"
+  /\ r \in CanCancel /\ ctx[r] = "live" /\ (cpc[r] # "done" \/ InTransit(r))
   /\ ctx' = [ctx EXCEPT ![r] = "ended"]
   /\ EUnch /\ UNCHANGED <<alive, c2s, s2c, up, crashes, mutHeld, handlers, items, closed>>
 
@@ -669,7 +711,7 @@ Close ==
   /\ WithClose /\ ~closed
   /\ closed' = TRUE
   /\ alive' = [e \in Epochs |-> IF alive[e] \in {"open", "dead"} THEN "cancelled" ELSE alive[e]]
-  /\ raced' = (raced \/ spc \in {"sending", "written"})
+  /\ raced' = (raced \/ (spc \in {"sending", "written"} /\ alive[sndEpoch] \in {"open", "dead"}))
   /\ EUnchNoRaced /\ UNCHANGED <<ctx, c2s, s2c, up, crashes, mutHeld, handlers, items>>
 
 (***************************************************************************)
@@ -677,12 +719,12 @@ Close ==
 (***************************************************************************)
 CallerStep == EagerConnect
               \/ \E r \in Reqs : Issue(r) \/ HandOffQueue(r) \/ HandOffDirect(r) \/ ClosedReply(r) \/ CtxReply(r)
-                               \/ Take(r) \/ TakeCtx(r) \/ DrainItem(r) \/ DeleteRouter(r) \/ StreamEarlyDone(r)
+                               \/ Take(r) \/ TakeCtx(r) \/ Abandon(r) \/ DrainItem(r) \/ DeleteRouter(r) \/ StreamEarlyDone(r)
 SenderStep == Dequeue \/ SenderExit \/ Drain \/ CheckConnected \/ Dial \/ ReadBrokenForReconnect \/ SLockWait \/ SLocked
               \/ SSleepDone \/ SSleepWoken \/ BrokenCheck \/ BrokenReply \/ CtxCheck \/ SRLock \/ SendWrite \/ SendDone \/ SendNil \/ Confirm
-              \/ \E r \in Reqs : WatcherFires(r)
+              \/ \E r \in Reqs : WatcherDecides(r) \/ WatcherFires(r)
 ReceiverStep == RRLock \/ CancelPending2 \/ RecvOk \/ Route \/ RecvNil \/ RecvErr \/ CancelPending \/ RLockWait \/ RLocked \/ SleepInterrupted
-                \/ RcvNoticeClosed \/ ReceiverExit
+                \/ RcvLoopEnd \/ ReceiverExit
 ClientInternal == CallerStep \/ SenderStep \/ ReceiverStep
 ServerStep == \E e \in Epochs : SrvStart(e) \/ \E r \in Reqs : Release(e, r) \/ HandlerItem(e, r) \/ HandlerReturn(e, r)
 EnvStep == (\E r \in Reqs : CtxEnd(r) \/ ForeignItem(r)) \/ Crash \/ Restart \/ Close \/ TimerFire
